@@ -291,6 +291,35 @@ def check(prop, tier, seed, t0):
         xc_fns += 1
         xc_cases += ncase
         for b in bad:
+            # the engine and CPython disagree on this input.  If the real function violates its own contract there, the code is at fault (and is
+            # reported as such); if the engine simply cannot interpret the (changed) code concretely, the comparison says nothing; otherwise
+            # the translation is at fault
+            try:
+                r_ = native.replay_function(c.target, b['inputs'], reg) if b.get('inputs') is not None else {'confirmed': False}
+            except Exception:
+                r_ = {'confirmed': False}
+            if r_.get('confirmed'):
+                o_ = dict(id='%s#contract:cross-check' % c.target, kind='contract', label='cross-check', props=[prop], line=None, expect='unsat', verdict='undischarged',
+                          backend='native', time=0.0, model=b['inputs'], goal='the contract of %s holds' % c.target,
+                          note='found while comparing the engine with CPython: %s' % (r_.get('failed') or [])[:2], native=r_, finding=None)
+                if o_['id'] not in failing_ids:
+                    failing_ids.add(o_['id'])
+                    violations.append((dict(kind='fn', name=c.target, obligations=[o_]), o_))
+                continue
+            if str(b.get('engine', '')).startswith("('engine-error'"):
+                continue
+            # does the real function give the same answer in a fresh interpreter?  If not, its result depends on what was evaluated earlier
+            # in the process: hidden state in the code, not a translation fault
+            fresh_ = native.fresh_outcome(c.target, b['inputs']) if b.get('inputs') is not None else None
+            if fresh_ is not None and fresh_ != str(b.get('cpython')):
+                o_ = dict(id='%s#contract:history-dependence' % c.target, kind='contract', label='history-dependence', props=[prop], line=None, expect='unsat',
+                          verdict='undischarged', backend='native', time=0.0, model=b['inputs'], goal='%s is a function of its arguments' % c.target,
+                          note='the result on this input depends on earlier calls in the process: fresh interpreter %s, after other calls %s' % (fresh_[:120], str(b.get('cpython'))[:120]),
+                          native=dict(confirmed=True, fresh=fresh_, in_process=str(b.get('cpython'))), finding=None)
+                if o_['id'] not in failing_ids:
+                    failing_ids.add(o_['id'])
+                    violations.append((dict(kind='fn', name=c.target, obligations=[o_]), o_))
+                continue
             xc_bad.append(dict(function=c.target, **b))
     # lemmas are also run natively: random small instances that satisfy every `requires`, executed with the REAL functions
     lemma_native = {}
